@@ -12,6 +12,8 @@
    domain yields OutOfModel and the behaviour is not compared.                             *)
 EXTENDS Integers, Sequences, FiniteSets, TLC
 
+ASSUME KindComparedFirst == [k |-> "a", v |-> 1] # [k |-> "b", v |-> "x"]
+
 Nil == [k |-> "nil", v |-> 0]
 B(b) == [k |-> "bool", v |-> b]
 N(n) == [k |-> "num", v |-> n]
